@@ -13,72 +13,156 @@ Ltac align_sqrt tac :=
     match L with context [sqrt ?a] => match R with context [sqrt ?b] =>
       replace (sqrt a) with (sqrt b) by (f_equal; tac) end end end.
 
+Lemma nbl_radnn_0_0 k dx lam z : 0 < lam -> 0 < dx -> lam * lam <= 2 * (dx * dx) -> 0 <= nbl_rad_0_0 k dx lam z.
+Proof.
+  intros Hl Hd Hg. replace (nbl_rad_0_0 k dx lam z) with (1 - (lam * ((- (1 / 2)) / dx)) ^ 2 - (lam * ((- (1 / 2)) / dx)) ^ 2) by (unfold nbl_rad_0_0; field; lra).
+  apply rad_as_nonneg; try assumption; lra.
+Qed.
+Lemma nbl_add_0_0 k dx lam z1 z2 : nbl_ph_0_0 k dx lam (z1 + z2) = nbl_ph_0_0 k dx lam z1 + nbl_ph_0_0 k dx lam z2.
+Proof. unfold nbl_ph_0_0. ring. Qed.
 Lemma nbl_n2_0_0 k dx lam z : n2 (nbl_re_0_0 k dx lam z, nbl_im_0_0 k dx lam z) <= 1.
 Proof.
   unfold nbl_re_0_0, nbl_im_0_0.
   match goal with |- context [if ?b then _ else _] => destruct b end;
   match goal with |- context [cos ?t] => pose proof (Cexpi_n2 t) as H; unfold n2, Cexpi in *; simpl in * end; nra.
 Qed.
+Lemma nbl_radnn_0_1 k dx lam z : 0 < lam -> 0 < dx -> lam * lam <= 2 * (dx * dx) -> 0 <= nbl_rad_0_1 k dx lam z.
+Proof.
+  intros Hl Hd Hg. replace (nbl_rad_0_1 k dx lam z) with (1 - (lam * ((- (1 / 6)) / dx)) ^ 2 - (lam * ((- (1 / 2)) / dx)) ^ 2) by (unfold nbl_rad_0_1; field; lra).
+  apply rad_as_nonneg; try assumption; lra.
+Qed.
+Lemma nbl_add_0_1 k dx lam z1 z2 : nbl_ph_0_1 k dx lam (z1 + z2) = nbl_ph_0_1 k dx lam z1 + nbl_ph_0_1 k dx lam z2.
+Proof. unfold nbl_ph_0_1. ring. Qed.
 Lemma nbl_n2_0_1 k dx lam z : n2 (nbl_re_0_1 k dx lam z, nbl_im_0_1 k dx lam z) <= 1.
 Proof.
   unfold nbl_re_0_1, nbl_im_0_1.
   match goal with |- context [if ?b then _ else _] => destruct b end;
   match goal with |- context [cos ?t] => pose proof (Cexpi_n2 t) as H; unfold n2, Cexpi in *; simpl in * end; nra.
 Qed.
+Lemma nbl_radnn_0_2 k dx lam z : 0 < lam -> 0 < dx -> lam * lam <= 2 * (dx * dx) -> 0 <= nbl_rad_0_2 k dx lam z.
+Proof.
+  intros Hl Hd Hg. replace (nbl_rad_0_2 k dx lam z) with (1 - (lam * ((1 / 6) / dx)) ^ 2 - (lam * ((- (1 / 2)) / dx)) ^ 2) by (unfold nbl_rad_0_2; field; lra).
+  apply rad_as_nonneg; try assumption; lra.
+Qed.
+Lemma nbl_add_0_2 k dx lam z1 z2 : nbl_ph_0_2 k dx lam (z1 + z2) = nbl_ph_0_2 k dx lam z1 + nbl_ph_0_2 k dx lam z2.
+Proof. unfold nbl_ph_0_2. ring. Qed.
 Lemma nbl_n2_0_2 k dx lam z : n2 (nbl_re_0_2 k dx lam z, nbl_im_0_2 k dx lam z) <= 1.
 Proof.
   unfold nbl_re_0_2, nbl_im_0_2.
   match goal with |- context [if ?b then _ else _] => destruct b end;
   match goal with |- context [cos ?t] => pose proof (Cexpi_n2 t) as H; unfold n2, Cexpi in *; simpl in * end; nra.
 Qed.
+Lemma nbl_radnn_0_3 k dx lam z : 0 < lam -> 0 < dx -> lam * lam <= 2 * (dx * dx) -> 0 <= nbl_rad_0_3 k dx lam z.
+Proof.
+  intros Hl Hd Hg. replace (nbl_rad_0_3 k dx lam z) with (1 - (lam * ((1 / 2) / dx)) ^ 2 - (lam * ((- (1 / 2)) / dx)) ^ 2) by (unfold nbl_rad_0_3; field; lra).
+  apply rad_as_nonneg; try assumption; lra.
+Qed.
+Lemma nbl_add_0_3 k dx lam z1 z2 : nbl_ph_0_3 k dx lam (z1 + z2) = nbl_ph_0_3 k dx lam z1 + nbl_ph_0_3 k dx lam z2.
+Proof. unfold nbl_ph_0_3. ring. Qed.
 Lemma nbl_n2_0_3 k dx lam z : n2 (nbl_re_0_3 k dx lam z, nbl_im_0_3 k dx lam z) <= 1.
 Proof.
   unfold nbl_re_0_3, nbl_im_0_3.
   match goal with |- context [if ?b then _ else _] => destruct b end;
   match goal with |- context [cos ?t] => pose proof (Cexpi_n2 t) as H; unfold n2, Cexpi in *; simpl in * end; nra.
 Qed.
+Lemma nbl_radnn_1_0 k dx lam z : 0 < lam -> 0 < dx -> lam * lam <= 2 * (dx * dx) -> 0 <= nbl_rad_1_0 k dx lam z.
+Proof.
+  intros Hl Hd Hg. replace (nbl_rad_1_0 k dx lam z) with (1 - (lam * ((- (1 / 2)) / dx)) ^ 2 - (lam * ((0 / 1) / dx)) ^ 2) by (unfold nbl_rad_1_0; field; lra).
+  apply rad_as_nonneg; try assumption; lra.
+Qed.
+Lemma nbl_add_1_0 k dx lam z1 z2 : nbl_ph_1_0 k dx lam (z1 + z2) = nbl_ph_1_0 k dx lam z1 + nbl_ph_1_0 k dx lam z2.
+Proof. unfold nbl_ph_1_0. ring. Qed.
 Lemma nbl_n2_1_0 k dx lam z : n2 (nbl_re_1_0 k dx lam z, nbl_im_1_0 k dx lam z) <= 1.
 Proof.
   unfold nbl_re_1_0, nbl_im_1_0.
   match goal with |- context [if ?b then _ else _] => destruct b end;
   match goal with |- context [cos ?t] => pose proof (Cexpi_n2 t) as H; unfold n2, Cexpi in *; simpl in * end; nra.
 Qed.
+Lemma nbl_radnn_1_1 k dx lam z : 0 < lam -> 0 < dx -> lam * lam <= 2 * (dx * dx) -> 0 <= nbl_rad_1_1 k dx lam z.
+Proof.
+  intros Hl Hd Hg. replace (nbl_rad_1_1 k dx lam z) with (1 - (lam * ((- (1 / 6)) / dx)) ^ 2 - (lam * ((0 / 1) / dx)) ^ 2) by (unfold nbl_rad_1_1; field; lra).
+  apply rad_as_nonneg; try assumption; lra.
+Qed.
+Lemma nbl_add_1_1 k dx lam z1 z2 : nbl_ph_1_1 k dx lam (z1 + z2) = nbl_ph_1_1 k dx lam z1 + nbl_ph_1_1 k dx lam z2.
+Proof. unfold nbl_ph_1_1. ring. Qed.
 Lemma nbl_n2_1_1 k dx lam z : n2 (nbl_re_1_1 k dx lam z, nbl_im_1_1 k dx lam z) <= 1.
 Proof.
   unfold nbl_re_1_1, nbl_im_1_1.
   match goal with |- context [if ?b then _ else _] => destruct b end;
   match goal with |- context [cos ?t] => pose proof (Cexpi_n2 t) as H; unfold n2, Cexpi in *; simpl in * end; nra.
 Qed.
+Lemma nbl_radnn_1_2 k dx lam z : 0 < lam -> 0 < dx -> lam * lam <= 2 * (dx * dx) -> 0 <= nbl_rad_1_2 k dx lam z.
+Proof.
+  intros Hl Hd Hg. replace (nbl_rad_1_2 k dx lam z) with (1 - (lam * ((1 / 6) / dx)) ^ 2 - (lam * ((0 / 1) / dx)) ^ 2) by (unfold nbl_rad_1_2; field; lra).
+  apply rad_as_nonneg; try assumption; lra.
+Qed.
+Lemma nbl_add_1_2 k dx lam z1 z2 : nbl_ph_1_2 k dx lam (z1 + z2) = nbl_ph_1_2 k dx lam z1 + nbl_ph_1_2 k dx lam z2.
+Proof. unfold nbl_ph_1_2. ring. Qed.
 Lemma nbl_n2_1_2 k dx lam z : n2 (nbl_re_1_2 k dx lam z, nbl_im_1_2 k dx lam z) <= 1.
 Proof.
   unfold nbl_re_1_2, nbl_im_1_2.
   match goal with |- context [if ?b then _ else _] => destruct b end;
   match goal with |- context [cos ?t] => pose proof (Cexpi_n2 t) as H; unfold n2, Cexpi in *; simpl in * end; nra.
 Qed.
+Lemma nbl_radnn_1_3 k dx lam z : 0 < lam -> 0 < dx -> lam * lam <= 2 * (dx * dx) -> 0 <= nbl_rad_1_3 k dx lam z.
+Proof.
+  intros Hl Hd Hg. replace (nbl_rad_1_3 k dx lam z) with (1 - (lam * ((1 / 2) / dx)) ^ 2 - (lam * ((0 / 1) / dx)) ^ 2) by (unfold nbl_rad_1_3; field; lra).
+  apply rad_as_nonneg; try assumption; lra.
+Qed.
+Lemma nbl_add_1_3 k dx lam z1 z2 : nbl_ph_1_3 k dx lam (z1 + z2) = nbl_ph_1_3 k dx lam z1 + nbl_ph_1_3 k dx lam z2.
+Proof. unfold nbl_ph_1_3. ring. Qed.
 Lemma nbl_n2_1_3 k dx lam z : n2 (nbl_re_1_3 k dx lam z, nbl_im_1_3 k dx lam z) <= 1.
 Proof.
   unfold nbl_re_1_3, nbl_im_1_3.
   match goal with |- context [if ?b then _ else _] => destruct b end;
   match goal with |- context [cos ?t] => pose proof (Cexpi_n2 t) as H; unfold n2, Cexpi in *; simpl in * end; nra.
 Qed.
+Lemma nbl_radnn_2_0 k dx lam z : 0 < lam -> 0 < dx -> lam * lam <= 2 * (dx * dx) -> 0 <= nbl_rad_2_0 k dx lam z.
+Proof.
+  intros Hl Hd Hg. replace (nbl_rad_2_0 k dx lam z) with (1 - (lam * ((- (1 / 2)) / dx)) ^ 2 - (lam * ((1 / 2) / dx)) ^ 2) by (unfold nbl_rad_2_0; field; lra).
+  apply rad_as_nonneg; try assumption; lra.
+Qed.
+Lemma nbl_add_2_0 k dx lam z1 z2 : nbl_ph_2_0 k dx lam (z1 + z2) = nbl_ph_2_0 k dx lam z1 + nbl_ph_2_0 k dx lam z2.
+Proof. unfold nbl_ph_2_0. ring. Qed.
 Lemma nbl_n2_2_0 k dx lam z : n2 (nbl_re_2_0 k dx lam z, nbl_im_2_0 k dx lam z) <= 1.
 Proof.
   unfold nbl_re_2_0, nbl_im_2_0.
   match goal with |- context [if ?b then _ else _] => destruct b end;
   match goal with |- context [cos ?t] => pose proof (Cexpi_n2 t) as H; unfold n2, Cexpi in *; simpl in * end; nra.
 Qed.
+Lemma nbl_radnn_2_1 k dx lam z : 0 < lam -> 0 < dx -> lam * lam <= 2 * (dx * dx) -> 0 <= nbl_rad_2_1 k dx lam z.
+Proof.
+  intros Hl Hd Hg. replace (nbl_rad_2_1 k dx lam z) with (1 - (lam * ((- (1 / 6)) / dx)) ^ 2 - (lam * ((1 / 2) / dx)) ^ 2) by (unfold nbl_rad_2_1; field; lra).
+  apply rad_as_nonneg; try assumption; lra.
+Qed.
+Lemma nbl_add_2_1 k dx lam z1 z2 : nbl_ph_2_1 k dx lam (z1 + z2) = nbl_ph_2_1 k dx lam z1 + nbl_ph_2_1 k dx lam z2.
+Proof. unfold nbl_ph_2_1. ring. Qed.
 Lemma nbl_n2_2_1 k dx lam z : n2 (nbl_re_2_1 k dx lam z, nbl_im_2_1 k dx lam z) <= 1.
 Proof.
   unfold nbl_re_2_1, nbl_im_2_1.
   match goal with |- context [if ?b then _ else _] => destruct b end;
   match goal with |- context [cos ?t] => pose proof (Cexpi_n2 t) as H; unfold n2, Cexpi in *; simpl in * end; nra.
 Qed.
+Lemma nbl_radnn_2_2 k dx lam z : 0 < lam -> 0 < dx -> lam * lam <= 2 * (dx * dx) -> 0 <= nbl_rad_2_2 k dx lam z.
+Proof.
+  intros Hl Hd Hg. replace (nbl_rad_2_2 k dx lam z) with (1 - (lam * ((1 / 6) / dx)) ^ 2 - (lam * ((1 / 2) / dx)) ^ 2) by (unfold nbl_rad_2_2; field; lra).
+  apply rad_as_nonneg; try assumption; lra.
+Qed.
+Lemma nbl_add_2_2 k dx lam z1 z2 : nbl_ph_2_2 k dx lam (z1 + z2) = nbl_ph_2_2 k dx lam z1 + nbl_ph_2_2 k dx lam z2.
+Proof. unfold nbl_ph_2_2. ring. Qed.
 Lemma nbl_n2_2_2 k dx lam z : n2 (nbl_re_2_2 k dx lam z, nbl_im_2_2 k dx lam z) <= 1.
 Proof.
   unfold nbl_re_2_2, nbl_im_2_2.
   match goal with |- context [if ?b then _ else _] => destruct b end;
   match goal with |- context [cos ?t] => pose proof (Cexpi_n2 t) as H; unfold n2, Cexpi in *; simpl in * end; nra.
 Qed.
+Lemma nbl_radnn_2_3 k dx lam z : 0 < lam -> 0 < dx -> lam * lam <= 2 * (dx * dx) -> 0 <= nbl_rad_2_3 k dx lam z.
+Proof.
+  intros Hl Hd Hg. replace (nbl_rad_2_3 k dx lam z) with (1 - (lam * ((1 / 2) / dx)) ^ 2 - (lam * ((1 / 2) / dx)) ^ 2) by (unfold nbl_rad_2_3; field; lra).
+  apply rad_as_nonneg; try assumption; lra.
+Qed.
+Lemma nbl_add_2_3 k dx lam z1 z2 : nbl_ph_2_3 k dx lam (z1 + z2) = nbl_ph_2_3 k dx lam z1 + nbl_ph_2_3 k dx lam z2.
+Proof. unfold nbl_ph_2_3. ring. Qed.
 Lemma nbl_n2_2_3 k dx lam z : n2 (nbl_re_2_3 k dx lam z, nbl_im_2_3 k dx lam z) <= 1.
 Proof.
   unfold nbl_re_2_3, nbl_im_2_3.
